@@ -336,7 +336,7 @@ PROFILES = {
     "C03": dict(versions=[5, 5, 4], rpi=[-1, -1, 0, 1], shared=0.15, nolocal=0.3, props=0.6, subid=0.3, qos=[0, 1, 2], retain=0.0,
                 weights=dict(subscribe=6, unsubscribe=1, publish=9, disconnect=1, connect=2), acl=2),
     "C04": dict(versions=[5, 5, 4], shared=0.1, rap=0.4, subid=0.6, qos=[0, 1, 2], retain=0.4, rh=[0, 0, 1, 2], sei=[300],
-                weights=dict(subscribe=7, unsubscribe=1, publish=9, disconnect=0, connect=1, resub_resume=2), maxqos=[0, 1, 2, 2]),
+                weights=dict(subscribe=7, unsubscribe=1, publish=9, disconnect=0, connect=1, resub_resume=2, overlap_subid=1.5), maxqos=[0, 1, 2, 2]),
     "C05": dict(versions=[5, 5, 4], shared=0.15, qos=[0, 1], retain=0.7, empty_payload=0.25, rh=[0, 1, 2], topics=gen.TOPICS[:5],
                 weights=dict(subscribe=8, unsubscribe=1, publish=8, disconnect=1, connect=1, resub_clean=2), retain_avail=[1, 1, 1, 0]),
     "C06": dict(versions=[5, 5, 4], shared=0.6, qos=[0, 1, 2], clients=["c1", "c2", "c3", "c4", "c5"], p_clean=0.8,
@@ -372,7 +372,7 @@ def histories_for(ctx, pid, n):
 QOS_PROFILES = {
     "C08": dict(weights=dict(publish=10, ack=6, reconnect=1, drop=0, ping=1, dup2=8, rel=4, takeover=0), qos=[0, 1, 2, 2, 2], p_rel_now=0.25,
                 publishers=["c1", "c4"], sub_qos=[0, 1, 2], pubs_subscribe=True, p_low_pid=0.3),
-    "C09": dict(weights=dict(publish=10, ack=8, reconnect=4, drop=1, ping=1, rel=3, takeover=2), rm=[1, 2, 0, 0], qos=[1, 1, 2, 2, 0], sei=[300], p_ackdrop=0.12),
+    "C09": dict(weights=dict(publish=10, ack=8, reconnect=4, drop=1, ping=1, rel=3, takeover=2, pubrec_drop=1.5), rm=[1, 2, 0, 0], qos=[1, 1, 2, 2, 0], sei=[300], p_ackdrop=0.25),
     "C10": dict(weights=dict(publish=10, ack=6, reconnect=1, drop=0, ping=1, rel=3, collide=6, takeover=0), qos=[1, 2], sei=[300],
                 max_packet_id=[0, 0, 4, 6]),
     "C11": dict(weights=dict(publish=12, ack=10, reconnect=3, drop=0, ping=2, rel=4, takeover=1), rm=[1, 1, 2, 3], rm_reconnect=[1, 1, 2], qos=[0, 1, 1, 2, 2], sei=[300],
@@ -478,10 +478,10 @@ MIXED = {
     # property: (generator, profile, config knobs)
     "C23": ("routing", dict(versions=[5, 4, 3], shared=0.1, nolocal=0.1, props=0.3, subid=0.3, qos=[0, 1, 2], retain=0.3, sys_topics=0.1, bad_filters=0.15,
                             acl=3, wills=0.4, mps=[0, 40, 60], rpi=[-1, 0, 1], pad=0.3, p_clean=0.4, ack=True, p_ack=0.6, sei=[300, 300, 0],
-                            weights=dict(subscribe=5, unsubscribe=2, publish=9, disconnect=2, connect=4, tick=1, size_sweep=0.4)), dict(obscure=[False, True])),
+                            weights=dict(subscribe=5, unsubscribe=2, publish=9, disconnect=2, connect=4, tick=1, size_sweep=0.4, version_switch=1)), dict(obscure=[False, True])),
     "C24": ("routing", dict(versions=[5, 5, 4], tam=[0, 1, 2, 2], rm=[0, 0, 1], mps=[0, 0, 0, 50], pad=0.2, pads=[60], qos=[0, 1, 1], in_alias=0.5, alias_max=2,
                             filters=[["a"], ["b"], ["a", "b"], ["#"], ["+"]], topics=[["a"], ["b"], ["a", "b"]], p_clean=0.3, sei=[300],
-                            weights=dict(subscribe=5, unsubscribe=1, publish=12, disconnect=1, connect=3)), dict(topic_alias_max=[2, 2, 0], max_pending=[8192, 8192, 1])),
+                            weights=dict(subscribe=5, unsubscribe=1, publish=12, disconnect=1, connect=3, alias_rebind=1.5)), dict(topic_alias_max=[2, 2, 0], max_pending=[8192, 8192, 1])),
     "C25": ("routing", dict(versions=[5, 5, 4], qos=[0, 1, 1], retain=0.5, mei=[0, 0, 20, 50, 200], rm=[0, 0, 1], sei=[300], p_clean=0.2, ack=False,
                             ticks=["retained", "inflight", "retained", "inflight", "clients"], dts=[0, 30, 70, 150, 400],
                             filters=[["a"], ["b"], ["#"], ["a", "#"]], topics=[["a"], ["b"], ["a", "b"]],
